@@ -765,43 +765,71 @@ def gen_contest(ctx, res, st, with_data):
         table = {id(a): fl(d) for a, d in zip(asns.values(), datas)}
         for a in asns.values():
             a.mvrs_to_data = types.MethodType(lambda self, m, c, use_all=False, _t=table: (_t[id(self)], self.test.u), a)
-        if typ == "ONEAUDIT" and rng.random() < 0.7:      # no MVRs yet: the ONEAudit branch derives data from the CVRs
+    one_cvrs = with_data and typ == "ONEAUDIT" and rng.random() < 0.7   # no MVRs yet: ONEAudit derives data from the CVRs
+
+    def audit_loop_state(force_largest):
+        """put the assertions in a state the audit loop produces: p-values and histories recorded, some assertions
+        already proved (possibly the one needing the largest sample); estimates of earlier calls forgotten"""
+        big = max(range(k), key=lambda i: exps[i])
+        marked = []
+        for i, a in enumerate(asns.values()):
+            a.p_history = [float(v) for v in hs[i][:rng.randint(0, len(hs[i]))]]
+            a.p_value = min(a.p_history) if a.p_history else 1
+            a.proved = (rng.random() < 0.4) or (force_largest and i == big)
+            a.sample_size = None
+            marked.append(bool(a.proved))
+        return marked
+
+    out_cases = []
+    rounds = ["fresh" if rng.random() < 0.6 else "state"] + (["state"] if rng.random() < 0.6 else [])
+    for rnd, mode in enumerate(rounds):
+        proved = audit_loop_state(rng.random() < 0.6) if mode == "state" else [False] * k
+        if one_cvrs:
             out = call(lambda: int(con.find_sample_size(audit=audit, cvr_sample=["cvrs"])))
-        else:
+        elif with_data:
             out = call(lambda: int(con.find_sample_size(audit=audit, mvr_sample=["mvrs"], cvr_sample=["cvrs"])))
-    else:
-        out = call(lambda: int(con.find_sample_size(audit=audit)))
-    per = [getattr(a, "sample_size", None) for a in asns.values()]
-    res.oracle_runs += 1
-    bad = None
-    if out[0] != "ok":
-        bad = f"raises {out[1]}"
-    elif any(p is None for p in per) or out[1] != max(per) or con.sample_size != out[1]:
-        bad = f"contest estimate {out[1]} is not the largest of its assertions' estimates {per}"
-    elif [int(p) for p in per] != exps:
-        bad = f"assertion estimates {per} are not the first crossings {exps} on the documented populations"
-    if bad:
-        res.oracle_violations.append({"what": "Contest.find_sample_size: " + ("raises" if bad.startswith("raises") else
-                                              "not the largest of its assertions' estimates" if "largest" in bad else
-                                              "assertion estimates are not first crossings on the documented populations"),
-                                      "input": {"audit_type": typ, "N": N, "assertions": C.jsonable(specs), "rate_1": C.jsonable(r1),
-                                                "rate_2": C.jsonable(r2), "data": C.jsonable(datas), "risk_limit": alpha},
-                                      "observed": bad, "signature": "C16:contest"})
+        else:
+            out = call(lambda: int(con.find_sample_size(audit=audit)))
+        per = [getattr(a, "sample_size", None) for a in asns.values()]
+        res.oracle_runs += 1
+        bad = None
+        if out[0] != "ok":
+            bad = f"raises {out[1]}"
+        elif out[1] != max(exps) or any(p is None for p in per) or out[1] != max(per) or con.sample_size != out[1]:
+            bad = (f"contest estimate {out[1]} is not the largest of its assertions' estimates (first crossings {exps}, "
+                   f"sample_size attributes {per}, proved {proved}, call #{rnd + 1})")
+        elif [int(p) for p in per] != exps:
+            bad = f"assertion estimates {per} are not the first crossings {exps} on the documented populations"
+        if bad:
+            res.oracle_violations.append({"what": "Contest.find_sample_size: " + ("raises" if bad.startswith("raises") else
+                                                  "not the largest of its assertions' estimates" if "largest" in bad else
+                                                  "assertion estimates are not first crossings on the documented populations"),
+                                          "input": {"audit_type": typ, "N": N, "assertions": C.jsonable(specs), "rate_1": C.jsonable(r1),
+                                                    "rate_2": C.jsonable(r2), "data": C.jsonable(datas), "risk_limit": alpha,
+                                                    "proved": proved, "call": rnd + 1},
+                                          "observed": bad, "signature": "C16:contest"})
+        key = "contest call " + ("on fresh assertions" if mode == "fresh" else "with audit-loop state (p-values, proved)") + \
+              (", second call" if rnd else "")
+        st[key] = st.get(key, 0) + 1
+        if any(proved) and proved[max(range(k), key=lambda i: exps[i])]:
+            st["contest whose largest assertion is already proved"] = st.get("contest whose largest assertion is already proved", 0) + 1
+        out_cases.append({"specs": specs, "datas": datas, "alpha": C.frac(alpha), "r1": r1, "r2": r2, "out": out, "per": per,
+                          "proved": proved, "call": rnd + 1})
     if len(set(exps)) > 1:
         res.nontrivial.add(("contest", repr(specs), repr(r1), repr(r2), repr(datas)))
         st["contest with differing assertion estimates"] = st.get("contest with differing assertion estimates", 0) + 1
-    return {"specs": specs, "datas": datas, "alpha": C.frac(alpha), "r1": r1, "r2": r2, "out": out, "per": per}
+    return out_cases
 
 
 def run_contests(ctx, res, st):
     cases = []
-    n = ctx.n(56, 800)
+    n = ctx.n(64, 900)
     tries = 0
     while len(cases) < n and tries < 5 * n:
         tries += 1
         c = gen_contest(ctx, res, st, with_data=ctx.rng.random() < 0.3)
         if c:
-            cases.append(c)
+            cases.extend(c)
     cr = C.run_corr(ctx.pid, "contest", IMPORTS, "list (asn * option (list Q)) * option Q * option Q * res nat", cases,
                     contest_lit, "agree_contest", shard=8, show="show_contest")
     res.corr.append(("Contest.find_sample_size vs SampleSize.contest_find", cr, lambda c: {k: C.jsonable(v) for k, v in c.items()}))
